@@ -6,16 +6,66 @@ TRUST = ("Trusted: TLC, the JSON/IOUtils community modules, the Rust harness's g
          "modelled level. Release profile (debug assertions off). Conformance is sampling: exhaustive where the spec "
          "enumerates, seeded random elsewhere.")
 
+T3 = "TLA+ model checking (TLC) + spec-generated replay + trace validation"
+
+def _c(text, ref, technique=T3, note=TRUST):
+    return {"text": text, "design_ref": ref, "note": note, "technique": technique}
+
 CHECKS = {
-    "C10": {
-        "text": "Codec.tla specifies the codec at bin level; TLC checks losslessness and reader/writer context agreement "
-                "for every operation sequence up to a bound; every such sequence is replayed into the real codec with the "
-                "spec's bins as the expected coder input; recorded round trips of long random sequences and of real "
-                "analyses are validated event by event against the same spec.",
-        "design_ref": "DESIGN.md 4 (C10)",
-        "note": TRUST,
-        "technique": "TLA+ model checking (TLC) + spec-generated replay + trace validation",
-    },
+    "C01": _c("Scan.tla models the scanner's two cursors over abstract files; TLC checks tiling, totality, chunk "
+              "alternation and termination for every file of up to 3 (thorough: 4) segments over 25 segment classes; "
+              "every such file is concretised with real compressor streams and round-tripped (also through zstd); "
+              "random, damaged and sample files and all short byte strings are round-tripped; expand/recreate runs "
+              "are validated chunk by chunk against Chunks.tla (container bytes, IDAT descriptor, thresholds).",
+              "DESIGN.md 4 (C01)"),
+    "C02": _c("Gen_Deflate (RFC 1951 in TLA+) generates valid streams that use the format's unused freedom; each is "
+              "analysed with both verify flags and must reconstruct to the input prefix, give identical results for "
+              "both flags and be independent of the bytes after compressed_size; the same on compressor outputs and "
+              "their mutations.",
+              "DESIGN.md 4 (C02)"),
+    "C03": _c("Deflate.tla is the reference inflater (RFC 1951 transcribed independently of the Rust tables; itself "
+              "validated against zlib on every generated stream). Generated behaviours carry the tokens and plaintext "
+              "they denote and the parser must report exactly those; parser reports on generated and compressor-made "
+              "streams are validated field by field, bit position by bit position, by Trace_Deflate, which also "
+              "states C03 against zlib's verdict logged in the trace.",
+              "DESIGN.md 4 (C03)"),
+    "C05": _c("Generated valid-but-unusual streams, compressor outputs with 8 mutations each, and every byte string up "
+              "to 2 (thorough: 3) bytes are analysed with both verify flags under a watchdog; a panic or a hang is a "
+              "trace event the specification has no transition for.",
+              "DESIGN.md 4 (C05)"),
+    "C06": _c("Scan.tla predicts the chunk structure of every abstract file (invariants Found / NothingElse: exactly "
+              "the embedded streams above the threshold are expanded, at the right offsets); all files of up to 3 "
+              "segments are built with real streams over the wrapper variants and the real chunk list and the verbatim "
+              "presence of each plaintext are compared with the prediction.",
+              "DESIGN.md 4 (C06)"),
+    "C07": _c("Every generated stream (padding values, HLIT/HDIST/HCLEN slack, arbitrary run-length choices, empty "
+              "blocks, 284+31) and every compressor output goes through the hook parse_and_rewrite (parser + block "
+              "writer, no predictor); the oracle is the input prefix.",
+              "DESIGN.md 4 (C07)"),
+    "C10": _c("Codec.tla specifies the codec at bin level; TLC checks losslessness and reader/writer context agreement "
+              "for every operation sequence up to a bound; every such sequence is replayed into the real codec with the "
+              "spec's bins as the expected coder input; recorded round trips of long random sequences and of real "
+              "analyses are validated event by event against the same spec.",
+              "DESIGN.md 4 (C10)"),
+    "C11": _c("Zstd.tla states what each (frame class, capacity) pair demands; MC_Zstd checks the wrapper model against "
+              "it; recorded calls of decompress_zstd around the per-file expanded size and on 8 kinds of non-frames are "
+              "validated against the same demands.",
+              "DESIGN.md 4 (C11)"),
+    "C12": _c("CAbi.tla states the caller-visible contract (guards intact, status in {0,-1,-2}, result_size only on "
+              "success and within capacity, undersized buffer negative, no unwinding); MC_CAbi checks a memory model of "
+              "one call; recorded calls of both wrappers on canary-guarded buffers over capacities around the needed "
+              "size are validated against the same contract.",
+              "DESIGN.md 4 (C12)"),
+    "C13": _c("IO.tla models recreated_zlib_chunks against an environment that fragments and fails I/O; TLC explores "
+              "every schedule over small containers (prefix, Ok-is-complete, hard errors surface, fragmentation is "
+              "harmless, termination); on real containers one fault of each kind is injected at every I/O call index "
+              "and every call sequence is validated by Trace_IO.",
+              "DESIGN.md 4 (C13)"),
+    "C14": _c("Concurrency.tla shows determinism under every interleaving when no mutable cell is shared (and finds "
+              "the race when one is: negative self-test); a source inventory monitors that hypothesis; 16 threads "
+              "released together call the public functions on shared and distinct inputs and every result is compared "
+              "by Trace_Conc with a sequential reference; a second process must reproduce the reference.",
+              "DESIGN.md 4 (C14)"),
 }
 
 _NOT_YET = "check not built yet in this session (planned, see DESIGN.md 9)"
